@@ -16,4 +16,13 @@ def check(ctx):
     facts = ctx.facts("E")
     provrules.rule_context_copies(ctx, facts, "R1")
     provrules.rule_first_item(ctx, facts, "R2")
+    provrules.rule_token_order_preserved(ctx, facts, "R2")
+    provrules.rule_extraction_never_gives_up(ctx, facts, "R3")
+    # extraction from inside a property closure: the closure must not run under the stack borrow (C07-R2)
+    from .. import panics
+    inv = panics.Inventory(ctx, facts)
+    for fn in inv.bodies:
+        for b in fn.calls_re(r"core::cell::RefCell::<T>::borrow_mut$", cleanup=False):
+            if "LocalSpanStack" in fn.term(b)["arg_tys"][0]:
+                inv.check_borrow_site(fn, b, "R3", rid_user="R3", rid_nested="R3b")
     provrules.rule_token_items(ctx, facts, "R4", fields=("trace_id", "parent_id", "is_sampled"))
